@@ -5,7 +5,11 @@ ROOT = os.path.dirname(os.path.dirname(os.path.abspath(__file__)))
 props = [json.loads(l) for l in open(os.path.join(ROOT, "properties.jsonl"))]
 cfg = {}
 for p in glob.glob(os.path.join(ROOT, "tools", "props", "C*.json")):
-    cfg[os.path.basename(p)[:-5]] = json.load(open(p))
+    pid = os.path.basename(p)[:-5]
+    pv = os.path.join(ROOT, "coq", "props", pid + ".v")
+    if not os.path.exists(pv) or "Print Assumptions" not in open(pv).read():
+        continue        # not claimed until its props file holds theorems
+    cfg[pid] = json.load(open(p))
 DEFAULT_TEXT = ("Refinement theorems in Coq 8.16 (executable Gallina model = Z-level specification, for all canonical "
                 "operands of any length), instantiated at parameters re-extracted from /repo's source on every run; "
                 "the model is tied to the Rust code by a differential correspondence run (public API and, through "
